@@ -116,6 +116,7 @@ def r2_bounds(ctx, P):
     ctx.floor(R, "index-taking methods with raw accesses", n, 8)
 
 
+VEC_TYPES_SELF = ("bump_vec::BumpVec<", "mut_bump_vec::MutBumpVec<", "mut_bump_vec_rev::MutBumpVecRev<", "bump_string::BumpString<")
 EFFECTS = {"dec_len", "inc_len", "set_len", "copy_to", "copy", "copy_nonoverlapping", "write", "copy_to_nonoverlapping",
            "copy_from", "copy_from_nonoverlapping"}
 READERS = {"len", "as_mut_ptr", "as_ptr"}
@@ -397,6 +398,63 @@ def r4_capacity(ctx, P):
     ctx.floor(R, "safe constructors of FixedBumpVec", nz, 4)
 
 
+def r9_shrink_adopted(ctx, P, R="C08.R9"):
+    ctx.rule(R, "a collection that shrinks its buffer with shrink_slice adopts the result: on the Some edge it stores the returned "
+                "pointer (the block moves when bumping downwards) and records exactly the length it passed as the new capacity")
+    n = 0
+    for b in P.fn_bodies():
+        impl = P.impl_of_item.get(P.outermost_fn(b.item)["id"])
+        if not impl or not impl["self_ty"].startswith(VEC_TYPES_SELF) or impl.get("trait"):
+            continue
+        shr = b.calls_to(lambda f: f.get("name") == "shrink_slice")
+        for k, (s_, t) in enumerate(shr):
+            n += 1
+            ve = b.variant_edges(lambda e: e[0] == "call" and e[1].split("::")[-1] == "shrink_slice")
+            some = ve.get("Some", [])
+            sp = [(x, tt) for x, tt in b.calls() if tt["f"].get("name") == "set_ptr" and
+                  expr_mentions(b.prov_operand(tt["args"][1], x), lambda y: y[0] == "call" and y[1].split("::")[-1] == "shrink_slice")]
+            sc = [(x, tt) for x, tt in b.calls() if tt["f"].get("name") == "set_cap"]
+            newlen = b.prov_operand(t["args"][-1], s_)
+            ok_ptr = bool(some) and bool(sp) and all(b.must_pass(None, [x.bb for x, _ in sp], exits=(RET,), cleanup=False, from_edge=e[1])[0] for e in some)
+            ok_cap = bool(sc) and all(b.prov_operand(tt["args"][1], x) == newlen for x, tt in sc if b.controlled_by(x, some, cleanup=False))
+            ok_cap = ok_cap and bool(some) and all(b.must_pass(None, [x.bb for x, _ in sc], exits=(RET,), cleanup=False, from_edge=e[1])[0] for e in some)
+            why = []
+            if not ok_ptr:
+                why.append("the pointer returned by shrink_slice is not stored on every path of the Some edge: when the block moves "
+                           "(downward bumping) the vector keeps pointing at freed memory")
+            if not ok_cap:
+                why.append(f"the recorded capacity is not the length passed to shrink_slice ({show(newlen)[:50]}): the vector claims "
+                           "more room than its block has and later pushes overwrite the neighbouring allocation")
+            ctx.inst(R, b.path, ok_ptr and ok_cap, f"shrink_slice(.., {show(newlen)[:40]}): pointer and capacity adopted" if ok_ptr and ok_cap
+                     else "; ".join(why), where=b.where(s_), site=f"shrink_slice #{k} adopted")
+    ctx.floor(R, "shrink_slice calls of the growable vectors", n, 2)
+
+
+def r10_in_place_map_gate(ctx, P, R="C08.R10"):
+    ctx.rule(R, "generic_map reuses the buffer of T for U only under ALIGN(T) >= ALIGN(U) and SIZE(T) >= SIZE(U) (both non-zero-sized)")
+    bs = [b for b in P.fn_bodies() if b.item["name"] == "generic_map" and b.path.startswith("bump_vec::BumpVec::<T, A>::")]
+    if not ctx.need(len(bs) == 1, R, "BumpVec::generic_map"):
+        return
+    b = bs[0]
+
+    def ge(name):
+        def pred(e):
+            if e[0] == "bin" and e[1] in ("Ge", "Le"):
+                l, r = (e[2], e[3]) if e[1] == "Ge" else (e[3], e[2])
+                l, r = strip_casts(l), strip_casts(r)
+                if l[0] == "assoc_const" and r[0] == "assoc_const" and l[2] == name and r[2] == name and l[3] == ("T",) and r[3] == ("U",):
+                    return True
+            return None
+        return pred
+    ta, _ = b.cond_edges(ge("ALIGN"))
+    ts, _ = b.cond_edges(ge("SIZE"))
+    guards = [(s_, st) for s_, st in b.assigns() if st["r"]["k"] == "agg" and st["r"].get("adt", "").endswith("DropGuard")]
+    ok = bool(ta) and bool(ts) and bool(guards) and all(b.controlled_by(s_, ta, cleanup=False) and b.controlled_by(s_, ts, cleanup=False) for s_, _ in guards)
+    ctx.inst(R, b.path, ok, "the in-place arm (DropGuard over the reused buffer) is control dependent on T::ALIGN >= U::ALIGN and T::SIZE >= U::SIZE"
+             if ok else "the in-place arm of map is not gated by both T::ALIGN >= U::ALIGN and T::SIZE >= U::SIZE: a buffer of T is "
+             "reused for a more strictly aligned (or larger) U - misaligned / overlapping elements", where=b.where(), site="in-place gate")
+
+
 def r7_drain_keep_rest(ctx, P, R="C08.R7"):
     ctx.rule(R, "Drain::keep_rest compacts exactly: the un-yielded part is moved to the drain's start (base + len(head)), the tail "
                 "directly behind it, and the new length ends where the moved tail ends (affine forms over the slice base, "
@@ -514,7 +572,11 @@ def run(ctx, progs):
         r4_capacity(ctx, P)
         r6_zst_sibling_agreement(ctx, P)
         r7_drain_keep_rest(ctx, P)
+        r9_shrink_adopted(ctx, P)
+        r10_in_place_map_gate(ctx, P)
         stale.rule(ctx, P, "C08.R5", ("bump_vec::BumpVec<", "mut_bump_vec::MutBumpVec<", "mut_bump_vec_rev::MutBumpVecRev<"), 20, 25)
         from . import c06
         c06.r1_len_before_drop(ctx, P, R="C08.R8")
+        from . import twins
+        twins.rule(ctx, P, "C08.R11", "bump_vec::BumpVec<", "mut_bump_vec::MutBumpVec<", 12 if "nodefault" in (ctx.config or "") else 15)
     ctx.config = None
